@@ -1,9 +1,10 @@
 """C12 -- NNF and DNF conversions are equivalent and in normal form.
 
-T1  spec/NormalFormsEnum.tla: on every enumerated expression the mechanism layer of
+T1  spec/NormalFormsEnum.tla: on every enumerated expression of depth <= 2 the mechanism layer of
     spec/NormalForms.tla (Nnf.get_nnf_expression / Dnf.walk_* as algorithms, with the repaired
-    walk_and) meets the declarative layer (IsNNF, IsDNF, truth-table Equiv); the same check for
-    walk_and AS WRITTEN fails, and fails only on inputs with a valid product term.
+    walk_and) meets the declarative layer (IsNNF, IsDNF, equal truth tables); the truth tables
+    agree with UPExpr!Eval; the same check for walk_and AS WRITTEN fails, and the as-written and
+    repaired mechanisms differ only on inputs with a valid product term.
 G1  TLC (NormalFormsEnum) emits the expressions (skeletons over an atom table) and the problem.
 T3  Python builds every expression as a real FNode in a real Problem (harness/upj.py), calls
     Nnf(env).get_nnf_expression and Dnf(env).get_dnf_expression, projects the results;
@@ -12,7 +13,8 @@ T3  Python builds every expression as a real FNode in a real Problem (harness/up
 """
 import json
 import os
-from multiprocessing import Pool
+from concurrent.futures import ThreadPoolExecutor
+from multiprocessing import Pool, Value
 
 from .. import tlc
 from ..common import MachineryError, time_limit, ImplTimeout
@@ -20,6 +22,7 @@ from ..common import MachineryError, time_limit, ImplTimeout
 OPC = {"not": 1, "and": 2, "or": 3, "implies": 4, "iff": 5}
 OPN = {v: k for k, v in OPC.items()}
 PLACEHOLDER = [0, 1]
+LEAVES = "a, x<=1, 1<=2, 2<=1, b, o1=o2, true, false"
 
 ENUM_CFG = """SPECIFICATION Spec
 CONSTANTS Fam = "%(fam)s"
@@ -68,10 +71,43 @@ def remap(sk, m):
     return [sk[0]] + [remap(x, m) for x in sk[1:]]
 
 
+def show(sk, atoms):
+    """human-readable rendering for replay files (not used by any verdict)"""
+
+    def atom(a):
+        if a["op"] == "const":
+            v = a["v"]
+            return str(v.get("b", v.get("n", v.get("o")))).lower()
+        if a["op"] in ("fluent", "obj", "param", "var") and not a["args"]:
+            return a["name"]
+        sym = {"le": "<=", "lt": "<", "eq": "=="}.get(a["op"], a["op"])
+        return "(" + (" %s " % sym).join(atom(x) for x in a["args"]) + ")"
+
+    if sk[0] == 0:
+        return atom(atoms[sk[1] - 1])
+    if sk[0] == 1:
+        return "!" + show(sk[1], atoms)
+    sym = {2: " & ", 3: " | ", 4: " -> ", 5: " <-> "}[sk[0]]
+    return "(" + sym.join(show(x, atoms) for x in sk[1:]) + ")"
+
+
 # ----------------------------------------------------------------------------------------
 # binding: build the FNode, call the two conversions, project
 # ----------------------------------------------------------------------------------------
 _W = {}
+MAX_TIMEOUTS = 6  # confirmed time-outs after which the remaining cases are not run any more
+
+
+class _Counter:
+    value = 0
+
+
+_TO = _Counter()
+
+
+def _pool_init(v):
+    global _TO
+    _TO = v
 
 
 def _setup(ctxrec):
@@ -81,41 +117,55 @@ def _setup(ctxrec):
         if _W["atoms"] != ctxrec["atoms"]:
             raise MachineryError("the enumerator changed its context between families")
         return _W["problem"]
-    P = dict(ctxrec["P"])
-    problem = upj.build(P)
-    sc = upj.Scope(
+    problem = upj.build(dict(ctxrec["P"]))
+    _W["problem"] = problem
+    _W["sc"] = upj.Scope(
         problem,
         {t.name: t for t in problem.user_types},
         {f.name: f for f in problem.fluents},
         {o.name: o for o in problem.all_objects},
     )
-    _W["problem"] = problem
-    _W["sc"] = sc
     _W["atoms"] = ctxrec["atoms"]
     return problem
 
 
+def _guard(fn):
+    """fn() under harness.common.time_limit -> ("ok", value) | ("timeout", "") | ("exc", class name).
+
+    A first time-out (5 s) is retried once with 30 s, so that a starved machine is not mistaken for a
+    non-terminating call; after MAX_TIMEOUTS confirmed time-outs there are no retries any more."""
+    for limit in (5, 30):
+        try:
+            with time_limit(limit):
+                return "ok", fn()
+        except ImplTimeout:
+            if _TO.value >= MAX_TIMEOUTS:
+                break
+        except Exception as ex:
+            return "exc", type(ex).__name__
+    _TO.value += 1
+    return "timeout", ""
+
+
 def _convert(tab, which, f):
-    """one conversion under a time limit -> [st, exc, out]"""
+    """one conversion with a fresh walker instance -> [st, exc, out]"""
     from .. import upj
     from unified_planning.model.walkers.dnf import Nnf, Dnf
 
     env = _W["problem"].environment
-    try:
-        with time_limit(5):
-            if which == "nnf":
-                out = Nnf(env).get_nnf_expression(f)
-            else:
-                out = Dnf(env).get_dnf_expression(f)
-            return {"st": "ok", "exc": "", "out": tab.compress(upj.p_expr(out))}
-    except ImplTimeout:
-        return {"st": "timeout", "exc": "", "out": PLACEHOLDER}
-    except Exception as ex:
-        return {"st": "exc", "exc": type(ex).__name__, "out": PLACEHOLDER}
+
+    def call():
+        out = Nnf(env).get_nnf_expression(f) if which == "nnf" else Dnf(env).get_dnf_expression(f)
+        return tab.compress(upj.p_expr(out))
+
+    st, v = _guard(call)
+    if st == "ok":
+        return {"st": "ok", "exc": "", "out": v}
+    return {"st": st, "exc": v, "out": PLACEHOLDER}
 
 
 def observe_chunk(job):
-    """job = (ctxrec, cases) -> (records, atoms beyond the base table)"""
+    """job = (ctxrec, cases) -> (records, atoms beyond the base table, number of cases not run)"""
     from .. import upj
 
     ctxrec, cases = job
@@ -123,39 +173,40 @@ def observe_chunk(job):
     base = len(ctxrec["atoms"])
     tab = AtomTable(ctxrec["atoms"])
     out = []
-    for c in cases:
+    for n, c in enumerate(cases):
+        if _TO.value >= MAX_TIMEOUTS:
+            return out, tab.atoms[base:], len(cases) - n
         rec = {"id": c["id"], "fam": c["fam"], "c": c["c"], "e": c["e"], "built": "ok", "ein": PLACEHOLDER}
-        f = None
-        try:
-            with time_limit(5):
-                f = upj.b_expr(expand(c["e"], ctxrec["atoms"]), _W["sc"])
-                rec["ein"] = tab.compress(upj.p_expr(f))
-        except ImplTimeout:
-            rec["built"] = "timeout"
-        except Exception as ex:
-            rec["built"] = type(ex).__name__
-        if f is None or rec["built"] != "ok":
+        st, v = _guard(lambda: upj.b_expr(expand(c["e"], ctxrec["atoms"]), _W["sc"]))
+        if st != "ok":
+            rec["built"] = st if st == "timeout" else v
             rec["nnf"] = rec["dnf"] = {"st": "exc", "exc": "not-built", "out": PLACEHOLDER}
         else:
+            f = v
+            rec["ein"] = tab.compress(upj.p_expr(f))
             rec["nnf"] = _convert(tab, "nnf", f)
             rec["dnf"] = _convert(tab, "dnf", f)
         out.append(rec)
-    return out, tab.atoms[base:]
+    return out, tab.atoms[base:], 0
 
 
 def observe(ctx, ctxrec, cases, procs):
     """all cases -> (records over one atom table, atom table)"""
-    size = 500
+    size = 400
     jobs = [(ctxrec, cases[i : i + size]) for i in range(0, len(cases), size)]
     if procs > 1 and len(jobs) > 1:
-        with Pool(procs) as pool:
+        shared = Value("i", 0)
+        with Pool(procs, initializer=_pool_init, initargs=(shared,)) as pool:
             parts = pool.map(observe_chunk, jobs, chunksize=1)
     else:
+        _TO.value = 0
         parts = [observe_chunk(j) for j in jobs]
     tab = AtomTable(ctxrec["atoms"])
     base = len(ctxrec["atoms"])
     recs = []
-    for rs, extra in parts:
+    notrun = 0
+    for rs, extra, nr in parts:
+        notrun += nr
         if extra:
             m = {base + 1 + i: tab.intern(a) for i, a in enumerate(extra)}
             if any(k != v for k, v in m.items()):
@@ -164,15 +215,15 @@ def observe(ctx, ctxrec, cases, procs):
                     r["nnf"]["out"] = remap(r["nnf"]["out"], m)
                     r["dnf"]["out"] = remap(r["dnf"]["out"], m)
         recs += rs
+    ctx.cov["cases_not_run_after_timeouts"] = ctx.cov.get("cases_not_run_after_timeouts", 0) + notrun
     return recs, tab.atoms
 
 
 # ----------------------------------------------------------------------------------------
 # TLC runs
 # ----------------------------------------------------------------------------------------
-def enumerate_family(ctx, label, fam, nl, step=1, off=0, picks=None, t1=True, lemma=False):
-    """TLC emits one family (and checks the design layer on it). -> (ctxrec, cases)"""
-    d = ctx.sub("enum-" + label)
+def enumerate_family(d, label, fam, nl, step=1, off=0, picks=None, t1=True, lemma=False, workers=4, as_written=False):
+    """one TLC run of NormalFormsEnum: emits a family and checks the design layer on it"""
     out = os.path.join(d, "cases.ndjson")
     cout = os.path.join(d, "ctx.ndjson")
     env = {"OUT": out, "CTXOUT": cout}
@@ -180,56 +231,78 @@ def enumerate_family(ctx, label, fam, nl, step=1, off=0, picks=None, t1=True, le
         pp = os.path.join(d, "picks.ndjson")
         tlc.write_ndjson(pp, picks)
         env["PICKS"] = pp
-    cfg = ENUM_CFG % dict(fam=fam, nl=nl, step=step, off=off) + (T1_INVS if t1 else "") + ("INVARIANT TruthTables\n" if lemma else "")
-    res = tlc.run_tlc("NormalFormsEnum", cfg, d, env=env, timeout=3000, coverage=False)
+    cfg = ENUM_CFG % dict(fam=fam, nl=nl, step=step, off=off)
+    if as_written:
+        cfg += "INVARIANT AsWritten\n"
+    else:
+        cfg += (T1_INVS if t1 else "") + ("INVARIANT TruthTables\n" if lemma else "")
+    res = tlc.run_tlc("NormalFormsEnum", cfg, d, env=env, timeout=3000, workers=workers)
+    return {"label": label, "res": res, "out": out, "cout": cout, "cfg": cfg, "checked": t1 or lemma, "as_written": as_written}
+
+
+def collect(ctx, r):
+    """account one enumeration run (main thread, fixed order) -> (ctxrec, cases)"""
+    res, label = r["res"], r["label"]
     if res.error:
-        raise MachineryError("NormalFormsEnum failed: %s" % res.error)
+        raise MachineryError("NormalFormsEnum (%s) failed: %s" % (label, res.error))
     em = [p for p in res.printed if p and p[0] == "EMITTED"]
     if not em:
-        raise MachineryError("NormalFormsEnum did not report what it emitted")
+        raise MachineryError("NormalFormsEnum (%s) did not report what it emitted" % label)
     count = em[0][1]
-    cases = tlc.read_ndjson(out)
+    cases = tlc.read_ndjson(r["out"])
     if len(cases) != count or count == 0:
         raise MachineryError("family %s: %d cases read, %d emitted" % (label, len(cases), count))
-    ctxrec = tlc.read_ndjson(cout)[0]
-    ctx.add_tlc("enum+T1 " + label, res)
+    if em[0][5] != 12:
+        raise MachineryError("the context of NormalFormsEnum has %r states, 12 expected" % (em[0][5],))
+    ctxrec = tlc.read_ndjson(r["cout"])[0]
+    ctx.add_tlc(("T1 as-written " if r["as_written"] else "enum+T1 ") + label, res)
+    if r["as_written"]:
+        # the as-written mechanism is a model of the pinned tree's walk_and: its design-level
+        # counterexample is evidence (root cause of the known defect), not a verdict on the code
+        if res.violated != "AsWritten":
+            raise MachineryError("the as-written walk_and model is indistinguishable from the repaired one (%r)" % res.violated)
+        m = res.trace[-1]["vars"].get("m") if res.trace else None
+        case = cases[m - 1] if isinstance(m, int) and 0 < m <= len(cases) else None
+        ctx.cov["design_counterexample_walk_and_as_written"] = show(case["e"], ctxrec["atoms"]) if case else "?"
+        return ctxrec, []
     if res.violated:
+        m = res.trace[-1]["vars"].get("m") if res.trace else None
+        case = cases[m - 1] if isinstance(m, int) and 0 < m <= len(cases) else None
         ctx.violation(
             "T1|" + res.violated,
             "design level: the mechanism layer of NormalForms violates %s on an enumerated expression" % res.violated,
-            {"family": label, "cfg": cfg, "trace": [s["vars"] for s in res.trace]},
+            {"family": label, "cfg": r["cfg"], "case": case, "expression": show(case["e"], ctxrec["atoms"]) if case else None},
         )
-    elif (t1 or lemma) and res.distinct != 1 + min(count, 64) + count:
-        raise MachineryError("T1 visited %d states for %d cases" % (res.distinct, count))
-    for i, c in enumerate(cases):
+    elif r["checked"] and res.distinct != 1 + min(count, 64) + count:
+        raise MachineryError("T1 visited %d states for %d cases of family %s" % (res.distinct, count, label))
+    for c in cases:
         c["id"] = "%s:%d" % (label, c["c"])
-    ctx.notes.setdefault("families", {})[label] = {"emitted": count, "family_size": em[0][2], "B1": em[0][3], "E2": em[0][4]}
-    return ctxrec, cases, em[0]
+    ctx.notes.setdefault("families", {})[label] = {
+        "emitted": count,
+        "family_size": em[0][2],
+        "B1": em[0][3],
+        "E2": em[0][4],
+        "design_checked": bool(r["checked"]),
+    }
+    return ctxrec, cases
 
 
-def as_written(ctx):
-    """T1 for walk_and as written in the pinned tree (design-level statement of the known defect)."""
-    d = ctx.sub("t1-as-written")
-    cfg = ENUM_CFG % dict(fam="d1", nl=4, step=1, off=0) + "INVARIANT AsWritten\n"
-    res = tlc.run_tlc(
-        "NormalFormsEnum", cfg, d, env={"OUT": os.path.join(d, "c.ndjson"), "CTXOUT": os.path.join(d, "x.ndjson")}, timeout=3000, workers=1
-    )
-    if res.error:
-        raise MachineryError("NormalFormsEnum (as written) failed: %s" % res.error)
-    ctx.add_tlc("T1 as-written", res)
-    if res.violated:
-        m = res.trace[-1]["vars"].get("m") if res.trace else None
-        cases = tlc.read_ndjson(os.path.join(d, "c.ndjson"))
-        ctx.violation(
-            "T1|as-written|" + res.violated,
-            "design level: Dnf.walk_and as written (a product term that simplifies to true returns the empty term list) violates %s"
-            % res.violated,
-            {"case": cases[m - 1] if isinstance(m, int) and 0 < m <= len(cases) else None, "atoms": "a, x<=1, 1<=2, 2<=1, b, o1=o2, true, false"},
-        )
-    return res
+def violation_data(r, atoms, P):
+    ok = lambda x: x["st"] == "ok"
+    return {
+        "case": {"id": r["id"], "fam": r["fam"], "c": r["c"]},
+        "input": show(r["e"], atoms),
+        "input_as_built": show(r["ein"], atoms) if r["built"] == "ok" else r["built"],
+        "nnf": show(r["nnf"]["out"], atoms) if ok(r["nnf"]) else r["nnf"]["st"] + ":" + r["nnf"]["exc"],
+        "dnf": show(r["dnf"]["out"], atoms) if ok(r["dnf"]) else r["dnf"]["st"] + ":" + r["dnf"]["exc"],
+        "record": r,
+        "atoms": atoms,
+        "problem": P,
+    }
 
 
-def judge(ctx, label, ctxrec, problem, recs, atoms):
+def judge(ctx, label, problem, recs, atoms, report=True):
+    """NormalFormsJudge on the records -> (list of FAIL tuples, number of featured inputs)"""
     from .. import upj
 
     d = ctx.sub("judge-" + label)
@@ -245,55 +318,31 @@ def judge(ctx, label, ctxrec, problem, recs, atoms):
     if res.distinct != 1 + min(n, 64) + n:
         raise MachineryError("judge visited %d states for %d records" % (res.distinct, n))
     cx = [p for p in res.printed if p and p[0] == "CONTEXT"]
-    if not cx or cx[0][1] != n:
-        raise MachineryError("judge read %r, %d records written" % (cx, n))
+    if not cx or cx[0][1] != n or cx[0][2] != 12:
+        raise MachineryError("judge context %r; %d records written, 12 states expected" % (cx, n))
     ctx.add_tlc("judge " + label, res)
-    ctx.notes.setdefault("states_of_context", cx[0][2])
     byid = {r["id"]: r for r in recs}
-    nfeat = 0
+    fails, feat = [], set()
     for p in res.printed:
         if not p:
             continue
         if p[0] == "FEATURE":
-            nfeat += 1
+            feat.add(p[1])
         elif p[0] == "FAIL":
-            _, rid, clause, detail, feat = p
-            r = byid[rid]
+            _, rid, clause, detail, ft = p
             if clause.startswith("machinery"):
                 raise MachineryError("judge rejected an enumerated case: %r" % (p,))
-            sig = "|".join(x for x in (clause, detail, feat) if x)
-            data = {
-                "clause": clause,
-                "detail": detail,
-                "feature": feat,
-                "case": {"id": rid, "fam": r["fam"], "c": r["c"]},
-                "input": expand(r["e"], atoms),
-                "input_as_built": expand(r["ein"], atoms) if r["built"] == "ok" else None,
-                "nnf": {"st": r["nnf"]["st"], "exc": r["nnf"]["exc"], "out": expand(r["nnf"]["out"], atoms) if r["nnf"]["st"] == "ok" else None},
-                "dnf": {"st": r["dnf"]["st"], "exc": r["dnf"]["exc"], "out": expand(r["dnf"]["out"], atoms) if r["dnf"]["st"] == "ok" else None},
-                "problem": P,
-            }
-            ctx.violation(sig, "C12 %s%s on an enumerated expression (%s)" % (clause, (" (" + detail + ")") if detail else "", feat or "-"), data)
-    return nfeat
-
-
-def run_family(ctx, label, procs, **kw):
-    ctxrec, cases, em = enumerate_family(ctx, label, **kw)
-    problem = _setup(ctxrec)
-    recs, atoms = observe(ctx, ctxrec, cases, procs)
-    nfeat = judge(ctx, label, ctxrec, problem, recs, atoms)
-    ctx.cov["evaluations"] += 2 * len(recs)
-    ctx.cov["traces_validated_against_impl"] += len(recs)
-    nontriv = sum(1 for r in recs if r["dnf"]["st"] == "ok" and r["dnf"]["out"] != r["ein"]) + sum(
-        1 for r in recs if r["nnf"]["st"] == "ok" and r["nnf"]["out"] != r["ein"]
-    )
-    ctx.cov["distinct_nontrivial"] += nontriv
-    ctx.notes["families"][label]["valid_product_term_inputs"] = nfeat
-    ctx.notes["families"][label]["atoms_in_table"] = len(atoms)
-    if len(recs) > 2:
-        r = recs[(2 * len(recs)) // 3]
-        ctx.sample({"family": label, "input": expand(r["e"], atoms), "nnf": r["nnf"], "dnf": r["dnf"], "atoms": "indices into the atom table of the batch"})
-    return recs
+            fails.append(p)
+            if report:
+                sig = "|".join(x for x in (clause, detail, ft) if x)
+                what = "%s%s: %s of an enumerated expression%s" % (
+                    clause,
+                    " (" + detail + ")" if detail else "",
+                    "the DNF" if clause.startswith("dnf") else "the NNF" if clause.startswith("nnf") else "construction",
+                    " whose NNF has a conjunction with a product term of valid literals only" if ft == "valid-product-term" else "",
+                )
+                ctx.violation(sig, what, violation_data(byid[rid], atoms, P))
+    return fails, feat
 
 
 def picks(rng, n, n2):
@@ -310,40 +359,139 @@ def e2_size(nl):
     return n1 + n1 + 4 * n1 * n1
 
 
-def run(ctx):
-    q = ctx.quick
-    procs = 8
-    as_written(ctx)
-    # every expression of depth <= 1 over all eight leaves, arity <= 3
-    run_family(ctx, "d1", 1, fam="d1", nl=8, lemma=True)
-    if q:
-        # every not / binary operator over B1(5 leaves): depth <= 2
-        run_family(ctx, "d2", procs, fam="d2", nl=5)
-        # ternary and / or over B1(4 leaves): a regular 1-in-Step slice (offset from the seed)
-        step = 149
-        run_family(ctx, "d2t", procs, fam="d2t", nl=4, step=step, off=ctx.rng.randrange(step))
-        npick, nlp = 6000, 5
+def plans(ctx):
+    """the families of a tier (all random choices are made here, in a fixed order)"""
+    if ctx.quick:
+        nl2, step, npick, nlp = 4, 149, 5000, 5
     else:
-        run_family(ctx, "d2", procs, fam="d2", nl=7)
-        step = 23
-        run_family(ctx, "d2t", procs, fam="d2t", nl=4, step=step, off=ctx.rng.randrange(step))
-        npick, nlp = 60000, 6
-    # depth 3, sampled: one operator over children drawn from E2
-    run_family(ctx, "d3", procs, fam="pick", nl=nlp, picks=picks(ctx.rng, npick, e2_size(nlp)), t1=q)
+        nl2, step, npick, nlp = 7, 23, 60000, 6
+    return [
+        dict(label="as-written", fam="d1", nl=4, as_written=True, workers=1),
+        # every expression of depth <= 1 over all eight leaves, arity <= 3; TT vs UPExpr!Eval lemma
+        dict(label="d1", fam="d1", nl=8, lemma=True, workers=2),
+        # every not / binary operator over B1(nl2 leaves): depth <= 2, exhaustive
+        dict(label="d2", fam="d2", nl=nl2, workers=8),
+        # ternary and / or over B1(4 leaves): a regular 1-in-step slice (offset from the seed)
+        dict(label="d2t", fam="d2t", nl=4, step=step, off=ctx.rng.randrange(step), workers=4),
+        # depth 3, sampled: one operator over children drawn uniformly from E2(nlp leaves)
+        dict(label="d3", fam="pick", nl=nlp, picks=picks(ctx.rng, npick, e2_size(nlp)), t1=False, workers=2),
+    ], dict(nl2=nl2, step=step, npick=npick, nlp=nlp)
+
+
+def run(ctx):
+    pl, par = plans(ctx)
+    # ---- G1 + T1: the enumerations run side by side (one JVM each) ------------------------
+    with ThreadPoolExecutor(len(pl)) as ex:
+        futs = [ex.submit(enumerate_family, ctx.sub("enum-" + p["label"]), **p) for p in pl]
+        runs = [f.result() for f in futs]
+    cases, ctxrec = [], None
+    for r in runs:
+        cr, cs = collect(ctx, r)
+        if ctxrec is not None and cr != ctxrec:
+            raise MachineryError("the enumeration runs disagree on the context")
+        ctxrec = cr
+        cases += cs
+    # ---- T3: the real classes, judged by TLC ------------------------------------------------
+    problem = _setup(ctxrec)
+    recs, atoms = observe(ctx, ctxrec, cases, 8)
+    fails, feat = judge(ctx, "all", problem, recs, atoms)
+    ctx.cov["evaluations"] += 2 * len(recs)
+    ctx.cov["traces_validated_against_impl"] += len(recs)
+    ctx.cov["distinct_nontrivial"] += sum(
+        1 for r in recs for k in ("nnf", "dnf") if r[k]["st"] == "ok" and r[k]["out"] != r["ein"]
+    )
+    fam = ctx.notes["families"]
+    for lab in fam:
+        fam[lab]["valid_product_term_inputs"] = sum(1 for i in feat if i.startswith(lab + ":"))
+    ctx.cov["families"] = fam
+    ctx.cov["atoms_in_table"] = len(atoms)
+    # vacuity: the corner the property statement singles out must have been exercised
+    if not feat or ctx.cov["distinct_nontrivial"] < len(recs) // 4:
+        raise MachineryError("vacuous run: %d featured inputs, %d non-trivial conversions" % (len(feat), ctx.cov["distinct_nontrivial"]))
+    for lab in ("d1", "d2", "d3"):
+        rs = [r for r in recs if r["id"].startswith(lab + ":")]
+        if rs:
+            r = rs[(2 * len(rs)) // 3]
+            ok = lambda x: show(x["out"], atoms) if x["st"] == "ok" else x["st"] + ":" + x["exc"]
+            ctx.sample({"family": lab, "input": show(r["e"], atoms), "nnf": ok(r["nnf"]), "dnf": ok(r["dnf"])})
     ctx.cov["exhaustive"] = True
     ctx.cov["rule"] = (
-        "G1 (NormalFormsEnum): leaves a, x<=1, 1<=2, 2<=1, b, o1=o2, true, false. d1: every expression of depth <= 1 "
-        "over all 8 leaves with not/and/or/implies/iff and ternary and/or (1296). d2: every not/binary operator over B1 = "
-        "{first %d leaves and every not/binary operator over them} (depth <= 2, exhaustive). d2t: ternary and/or over B1(4 "
-        "leaves), every %d-th code. d3: %d seeded random operator applications over children drawn uniformly from E2(%d "
-        "leaves) (depth <= 3, sampled). One evaluation = one conversion (NNF or DNF) of one expression, judged by TLC "
-        "(shape + truth table over the 12 states of the problem); non-trivial = the result differs from the input."
-        % (5 if q else 7, step, npick, nlp)
+        "G1 (NormalFormsEnum): leaves %s. d1: every expression of depth <= 1 over all 8 leaves with "
+        "not/and/or/implies/iff and ternary and/or (1296). d2: every not/binary operator over B1 = {first %d leaves and "
+        "every not/binary operator over them} (depth <= 2, exhaustive). d2t: ternary and/or over B1(4 leaves), every "
+        "%d-th code. d3: %d seeded random operator applications over children drawn uniformly from E2(%d leaves) "
+        "(depth <= 3, sampled). One evaluation = one conversion (NNF or DNF) of one expression by the real class, "
+        "judged by TLC (shape + truth table over the 12 states of the problem); non-trivial = the result differs "
+        "from the input. T1 (design layer) covers d1, d2, d2t." % (LEAVES, par["nl2"], par["step"], par["npick"], par["nlp"])
     )
-    ctx.cov["families"] = ctx.notes.get("families")
     ctx.assumptions += [
         "TLC, the CommunityModules Json reader and harness/upj.py b_expr/p_expr (structure only) are trusted",
         "equivalence is decided on the finite declared domains of the fluents (a, b Boolean; x in 0..2): 12 states",
         "d1/d2 are exhaustive within their stated leaf sets; d2t is a regular slice and d3 a seeded sample",
         "a fresh Nnf / Dnf instance is used for every expression (history dependence of walkers is C14's subject)",
     ]
+
+
+# ----------------------------------------------------------------------------------------
+# ./check C12 --replay FILE   and   ./check C12 --selftest
+# ----------------------------------------------------------------------------------------
+def replay(ctx, doc):
+    """re-run the input of a replay file on the current tree and judge it again"""
+    data = doc["data"]
+    if "record" not in data:
+        print("design-level finding (no implementation input): %s" % doc.get("what"))
+        return 0
+    ctxrec = {"P": data["problem"], "atoms": data["atoms"][:8]}
+    r0 = data["record"]
+    problem = _setup(ctxrec)
+    recs, atoms = observe(ctx, ctxrec, [{"id": r0["id"], "fam": r0["fam"], "c": r0["c"], "e": r0["e"]}], 1)
+    fails, _ = judge(ctx, "replay", problem, recs, atoms, report=False)
+    r = recs[0]
+    print("input: %s" % show(r["e"], atoms))
+    for k in ("nnf", "dnf"):
+        print("%s  : %s" % (k, show(r[k]["out"], atoms) if r[k]["st"] == "ok" else r[k]["st"] + ":" + r[k]["exc"]))
+    for f in fails:
+        print("FAIL %s" % "|".join(x for x in f[2:] if x))
+    return 1 if fails else 0
+
+
+def selftest(ctx):
+    """the judge rejects corrupted observations (one recorded field changed at a time)"""
+    r = enumerate_family(ctx.sub("enum-selftest"), "d1", "d1", 8, t1=False)
+    ctxrec, cases = collect(ctx, r)
+    problem = _setup(ctxrec)
+    recs, atoms = observe(ctx, ctxrec, cases, 1)
+    byexp = {json.dumps(r["e"]): r for r in recs}
+    AB, AorB = [2, [0, 1], [0, 5]], [3, [0, 1], [0, 5]]  # a & b, a | b
+    plan = [
+        (AB, "nnf", [1, AB], "nnf-shape"),  # a negation above a compound
+        (AB, "nnf", [0, 1], "nnf-equiv"),  # a
+        (AorB, "dnf", [2, AorB, [0, 7]], "dnf-shape"),  # a conjunction above a disjunction
+        (AorB, "dnf", [0, 1], "dnf-equiv"),  # a
+        (AorB, "dnf", [0, 99], "dnf-shape"),  # an atom outside the table
+        (AorB, "dnf", None, "dnf-raises"),
+        (AB, "ein", AorB, "input-build"),
+    ]
+    cor = [(json.loads(json.dumps(byexp[json.dumps(e)])), "clean", "") for e in (AB, AorB)]
+    for i, (e, field, val, want) in enumerate(plan):
+        r = json.loads(json.dumps(byexp[json.dumps(e)]))
+        r["id"] = "cor%d" % i
+        if field == "ein":
+            r["ein"] = val
+        elif val is None:
+            r[field] = {"st": "exc", "exc": "KeyError", "out": PLACEHOLDER}
+        else:
+            r[field]["out"] = val
+        cor.append((r, want, field))
+    fails, _ = judge(ctx, "selftest-corrupt", problem, [c[0] for c in cor], atoms, report=False)
+    got = {}
+    for f in fails:
+        got.setdefault(f[1], []).append(f[2])
+    rc = 0
+    for r, want, field in cor:
+        g = got.get(r["id"], [])
+        okk = (g == []) if want == "clean" else (g == [want])
+        print("selftest %s (%s): expected %s, judge reported %s -> %s" % (r["id"], field or "unchanged", want, g, "ok" if okk else "WRONG"))
+        if not okk:
+            rc = 1
+    return rc
